@@ -164,15 +164,43 @@ pub fn run(cx: &RunCtx) -> i32 {
     acc.merge(racc);
     acc.count("random_grammars", n_rand as u64);
 
+    // API family (model-free): every observation carries its own position
+    let api_alpha = ['a', '1', ' ', '\n', '\r', '(', ')', ',', 'é'];
+    let api_len = cx.t(4, 5);
+    let mut api_chars: Vec<Vec<char>> = all_inputs(&api_alpha, api_len);
+    {
+        const WORDS: &[&str] = &["a1", "a", "1", "12", "0", " ", "  ", "\n", "\r\n", "\r", "\n\r", "(", ")", "[", "]", ",", "é", "𝄞", "\t", "\u{2028}", "\u{85}", "e\u{301}", "a1a", "x_1"];
+        let mut rng = Rng::derive(seed, 0xC18A, 0);
+        for _ in 0..cx.t(3000, 60_000) {
+            let n = rng.range(1, 12);
+            let mut s = String::new();
+            for _ in 0..n {
+                let w: &&str = rng.pick(WORDS);
+                s.push_str(w);
+            }
+            api_chars.push(s.chars().collect());
+        }
+    }
+    let api_words: Vec<String> = api_chars.iter().map(|c| c.iter().collect()).collect();
+    let n_api = api_words.len();
+    const CH: usize = 128;
+    let aacc = for_each_index((n_api + CH - 1) / CH, cx.threads, 1, |acc, ci| {
+        let lo = ci * CH;
+        let hi = (lo + CH).min(n_api);
+        super::c18api::family(acc, &api_words[lo..hi], &api_chars[lo..hi]);
+    });
+    acc.merge(aacc);
+    acc.count("api_family_inputs", n_api as u64);
+
     finish(
         cx,
         acc,
         Finish {
-            rule: format!("every grammar with <= {size} nodes over the K02 basis + all recovery strategies + with_state + select + probes x every input <= {max_len} over {{a,b,é}} on &str (every 3rd input on &[char] and Stream), every node wrapped in a map_with that reads the inspector state; {n_shaped} shaped grammars (with_state scopes inside repetitions, abandoned alternatives, recovery, not, and_is, nested with_state, foldl_with/foldr_with callbacks reading the state); {n_rand} random grammars x 5 inputs; parse and check mode. The inspector is a snapshot-checkpoint inspector (token count + rolling hash); every observation (node map_with, select closure, fold callback, zero-width custom probe — the probes also in check mode) must equal the fold of exactly the tokens before the observation point within its with_state scope, the final state the fold of the whole input outside with_state scopes. Pratt fold callbacks observing the state are checked by the C09 driver. Non-trivial: accepted input whose reference evaluation backtracked"),
+            rule: format!("every grammar with <= {size} nodes over the K02 basis + all recovery strategies + with_state + select + probes x every input <= {max_len} over {{a,b,é}} on &str (every 3rd input on &[char] and Stream), every node wrapped in a map_with that reads the inspector state; {n_shaped} shaped grammars (with_state scopes inside repetitions, abandoned alternatives, recovery, not, and_is, nested with_state, foldl_with/foldr_with callbacks reading the state); {n_rand} random grammars x 5 inputs; parse and check mode. The inspector is a snapshot-checkpoint inspector (token count + rolling hash); every observation (node map_with, select closure, fold callback, zero-width custom probe — the probes also in check mode) must equal the fold of exactly the tokens before the observation point within its with_state scope, the final state the fold of the whole input outside with_state scopes. Pratt fold callbacks observing the state are checked by the C09 driver. API family (model-free; every observation carries its own position, so state == fold(input[..position]) is judged without a grammar model, on kept and abandoned paths, in parse and check mode): {} statically typed parsers outside the grammar AST (text::padded/whitespace/inline_whitespace/newline/int/digits/ident/keyword, string just, regex, one_of/none_of runs under lookahead, skip_until / skip_then_retry_until / nested_delimiters recovery, Pratt with observing fold callbacks, foldl_with/foldr_with, select!/filter/try_map/validate, custom parsers driving InputRef::next/next_maybe/peek/skip/parse/check/save/rewind by hand, memoized/labelled/map_err) x every string <= {api_len} over {{a,1,space,LF,CR,(,),comma,é}} + random word strings = {n_api} inputs, each as &str, &[char] and Stream. Non-trivial: accepted input whose reference evaluation backtracked", super::c18api::N_PARSERS),
             exhaustive: false,
             exhaustive_note: format!("grammars <= {size} nodes x inputs <= {max_len} on &str: complete"),
             assumptions: vec!["select closures run after their token has been taken: they see the state including that token".into(), "foldr_with callbacks run after the whole fold has been parsed: they see the state at its end".into()],
-            require: vec![("state_observations_in_outputs".into(), 100_000), ("final_states_compared".into(), 10_000), ("accepted_after_backtracking".into(), 10_000), ("accepted_after_recovery".into(), 1000), ("probe_state_observations".into(), 10_000)],
+            require: vec![("state_observations_in_outputs".into(), 100_000), ("final_states_compared".into(), 10_000), ("accepted_after_backtracking".into(), 10_000), ("accepted_after_recovery".into(), 1000), ("probe_state_observations".into(), 10_000), ("api_family_observations".into(), 100_000), ("api_family_final_states_compared".into(), 10_000)],
             min_evaluations: 10_000,
         },
     )
